@@ -209,7 +209,16 @@ def r17_4(chk):
     k = repo.func(MAN, "KeplerianImpulsiveMan.dv")
     ok = "self._dv = dkep2dv(orb, da=self.da, di=self.di, dOmega=self.dOmega)".replace("orb", k.params()[1]) in unparse(k.node)
     chk.inst("R17.4", f"{k.ref}", ok, "Keplerian increments converted with the state at the maneuver" if ok else "changed", loc(k, k.node))
-    chk.floor("R17.4", 11)
+    aol = repo.func(MAN, "dkep2aol")
+    ok = "return np.arctan2(dOmega * np.sin(orb.infos.kep.i), di)" in unparse(aol.node)
+    chk.inst("R17.4", f"{aol.ref}", ok, "ideal argument of latitude = atan2(dΩ sin i, di)" if ok else "changed", loc(aol, aol.node))
+    kc = repo.cls(MAN, "KeplerianContinuousMan")
+    t = unparse(kc.methods["accel"].node)
+    ok = "self._accel = dkep2dv(orb, da=self.da, di=self.di, dOmega=self.dOmega) / self.duration.total_seconds()" in t and "return super().accel(orb)" in t
+    chk.inst("R17.4", f"{kc.ref}.accel", ok, "Keplerian increments spread over the duration, projected as a TNW burn" if ok else "changed", loc(kc.methods["accel"], kc.methods["accel"].node))
+    ok = "kwargs['frame'] = 'TNW'" in unparse(kc.methods["__init__"].node)
+    chk.inst("R17.4", f"{kc.ref}.__init__", ok, "expressed in TNW" if ok else "changed", loc(kc.methods["__init__"], kc.methods["__init__"].node))
+    chk.floor("R17.4", 14)
 
 
 def run(chk):
